@@ -108,6 +108,10 @@ def run(chk: core.Check, tier: str, seed: int) -> None:
         q = rng.choice(QUERIES[c["q"]])
         doc = rng.choice(DOCS[c["d"]])
         raw = doc_bytes(c["d"], doc, rng)
+        if c["d"] in ("ascii", "nonascii") and c["dsrc"] == "file" and not isinstance(doc, bytes) and k % 3 == 0:
+            # -f reads bytes: a UTF-8 BOM or UTF-16 / UTF-32 document is valid input (json detects the encoding)
+            text = json.dumps(doc, ensure_ascii=(k % 2 == 0))
+            raw = [b"\xef\xbb\xbf" + text.encode("utf-8"), text.encode("utf-16"), text.encode("utf-16-le"), text.encode("utf-32-be")][(k // 3) % 4]
         argv = []
         if c["debug"]:
             argv.append("--debug")
